@@ -12,6 +12,7 @@ import (
 	"strconv"
 	"strings"
 	"sync"
+	"sync/atomic"
 
 	"github.com/graphql-go/graphql"
 	"github.com/graphql-go/graphql/language/ast"
@@ -81,8 +82,7 @@ type Env struct {
 	Log    *Log
 	Seed   uint64 // value universe seed
 
-	mu       sync.Mutex
-	outcomes *values.Outcomes
+	outcomes atomic.Pointer[values.Outcomes] // lock-free: a mutex here would add happens-before edges that hide library races
 	// MutateArgs makes every resolver scribble on the args map it received
 	// (to expose aliasing of plan-owned maps).
 	MutateArgs bool
@@ -92,8 +92,8 @@ type Env struct {
 	Quiet bool
 }
 
-func (e *Env) SetOutcomes(o *values.Outcomes) { e.mu.Lock(); e.outcomes = o; e.mu.Unlock() }
-func (e *Env) Outcomes() *values.Outcomes     { e.mu.Lock(); defer e.mu.Unlock(); return e.outcomes }
+func (e *Env) SetOutcomes(o *values.Outcomes) { e.outcomes.Store(o) }
+func (e *Env) Outcomes() *values.Outcomes     { return e.outcomes.Load() }
 
 // PathString joins a response path with "/".
 func PathString(p *graphql.ResponsePath) string {
